@@ -2222,6 +2222,7 @@ func main() {
 	writeSlabs(*out)
 	// the object engine (slab-level restructuring of the maps) writes <out>/TransMapSlabs.lean
 	writeObjMaps(*out)
+	writeObjElems(*out) // the object engine again (element layer of the maps): <out>/TransMapElems.lean, TransMapElem.lean
 	path := filepath.Join(*out, "Trans.lean")
 	content := b.String()
 	if old, err := os.ReadFile(path); err == nil && string(old) == content {
